@@ -154,9 +154,9 @@ impl<'a> G<'a> {
             // under Custom strategies only those free of '.' and '[' (a member called "$" is
             // addressed as "$.$", its child x as "$.$.x")
             if self.cfg.safe_names {
-                return (*self.r.pick(&["", " ", "0", "$", "~", "$ref", "$id", "$$", "*", "-1", "{value}", "{name}", "{}", "%s", "1", "_sd_note", "_sdk_version", "_sdr", "kty", "ns~1v2", "rev~0", "a/b", "~0", "~1~0"])).to_string();
+                return (*self.r.pick(&["", " ", "0", "$", "~", "$ref", "$id", "$$", "*", "-1", "{value}", "{name}", "{}", "%s", "1", "_sd_note", "_sdk_version", "_sdr", "kty", "ns~1v2", "rev~0", "a/b", "~0", "~1~0", "@context", "@type", "@id", "@"])).to_string();
             }
-            return (*self.r.pick(&["", " ", "0", "$", "~", ".", "[0]", "a.b", "$.x", "$ref", "{value}", "{name}", "{salt}", "{0}", "%s", "$1", "1", "...etc", "....", "..", "_sd_note", "_sdk_version", "kty", "ns~1v2", "rev~0", "a/b", "~0", "~1~0", ".well-known"])).to_string();
+            return (*self.r.pick(&["", " ", "0", "$", "~", ".", "[0]", "a.b", "$.x", "$ref", "{value}", "{name}", "{salt}", "{0}", "%s", "$1", "1", "...etc", "....", "..", "_sd_note", "_sdk_version", "kty", "ns~1v2", "rev~0", "a/b", "~0", "~1~0", ".well-known", "@context", "@type", "@id"])).to_string();
         }
         if name && self.r.chance(3) {
             // names that only LOOK like reserved / registered ones (none of them is reserved)
@@ -322,6 +322,15 @@ impl<'a> G<'a> {
             _ => self.r.below(8),
         };
         match k {
+            0 | 4 | 5 if self.r.chance(1) => {
+                // a plain string that equals the digest of a (foreign) disclosure, or is itself a
+                // compact JWT that expired long ago: data, not structure
+                if self.r.chance(50) {
+                    Value::String(crate::model::digest_of(&crate::model::evil_element_disclosure()))
+                } else {
+                    Value::String("eyJhbGciOiJub25lIn0.eyJleHAiOjE1MTYyMzkwMjIsImlzcyI6Im9sZCJ9.AAAA".into())
+                }
+            }
             0 | 4 | 5 => {
                 if self.r.chance(6) {
                     // whole-string values that look like reserved words / syntax of the format
@@ -615,8 +624,8 @@ pub fn gen_claims(r: &mut Rng, cfg: &GenCfg) -> Value {
     if g.r.chance(4) {
         // the same multi-member object twice in one claim set (billing = shipping address), the
         // second copy sometimes with its members in another order, sometimes both inside one array
-        let a = json!({"street": "Heidestr. 17", "city": "K\u{f6}ln", "zip": "51147", "country": "DE", "kty": "EC"});
-        let b = if g.r.chance(50) { a.clone() } else { json!({"kty": "EC", "country": "DE", "zip": "51147", "city": "K\u{f6}ln", "street": "Heidestr. 17"}) };
+        let a = json!({"street": "Heidestr. 17", "city": "K\u{f6}ln", "zip": "51147", "country": "DE", "kty": "EC", "geo": {"lat": 50.9, "lon": 6.9}});
+        let b = if g.r.chance(50) { a.clone() } else { json!({"geo": {"lon": 6.9, "lat": 50.9}, "kty": "EC", "country": "DE", "zip": "51147", "city": "K\u{f6}ln", "street": "Heidestr. 17"}) };
         let (t1, t2) = (g.tag(), g.tag());
         if g.r.chance(70) {
             m.insert(format!("billing{t1}"), a);
@@ -787,6 +796,12 @@ pub fn gen_strategy(r: &mut Rng, u: &Value, kind: StratKind) -> Strategy {
                     strs.push(format!("{base}.zz.yy"));
                     strs.push(format!("{base}\u{7f}no-such-suffix"));
                     // the same path in another letter case names no claim (unless a twin exists)
+                    // recursive-descent spelling: "$..x" is member x of the top-level member "" (if any)
+                    if let Some(deep) = paths.iter().find(|p| p.len() >= 2 && matches!(p.last(), Some(Step::K(_)))) {
+                        if let Some(Step::K(k)) = deep.last() {
+                            strs.push(format!("$..{k}"));
+                        }
+                    }
                     strs.push(format!("$.{}", base[2..].to_uppercase()));
                     strs.push(format!("$.{}", base[2..].to_lowercase()));
                 }
